@@ -7,6 +7,7 @@ cells: str | {"b": bool} | {"ts": "iso"} | {"nat": 1} | {"f": hex|"nan"|"inf"|"-
 """
 from __future__ import annotations
 
+import datetime
 import math
 import random
 import struct
@@ -36,12 +37,21 @@ def cell_py(c):
         return float(c["f"]) if c["f"] in ("nan", "inf", "-inf") else float.fromhex(c["f"])
     if "i" in c:
         return int(c["i"])
+    if "na" in c:
+        return pd.NA
     raise ValueError(c)
 
 
-def col_array(col):
+INDEX_KINDS = ["reversed", "offset", "dup", "gaps", "text"]
+NULLABLE = {"int": "Int64", "float": "Float64", "text": "string", "onoff": "boolean"}
+
+
+def col_array(col, nullable=False):
     vals = [cell_py(v) for v in col["values"]]
     k = col["kind"]
+    if nullable and k in NULLABLE:
+        # pandas' nullable extension dtypes: a missing cell is pd.NA
+        return pd.array([pd.NA if (isinstance(v, float) and v != v) else v for v in vals], dtype=NULLABLE[k])
     if k == "text":
         if any(not isinstance(v, str) for v in vals):
             # an explicit object Series keeps each spelling of an empty cell (None / NaN / NaT) as given;
@@ -60,12 +70,20 @@ def col_array(col):
     return np.array(vals, dtype=float)
 
 
-def build_table(spec, origin=None):
+def build_table(spec, origin=None, cls=None):
     import pdtable
     from pdtable import Table
 
-    data = {c["name"]: col_array(c) for c in spec["cols"]}
+    if cls is not None:
+        Table = cls
+    data = {c["name"]: col_array(c, nullable=bool(spec.get("nullable"))) for c in spec["cols"]}
     df = pd.DataFrame(data)
+    if spec.get("index") and len(df):
+        # row labels other than 0..n-1 (a frame that was sorted, filtered, sliced or concatenated): the rows, in their
+        # positions, are the table; the labels are not part of it
+        n = len(df)
+        df.index = {"reversed": list(range(n - 1, -1, -1)), "offset": list(range(5, 5 + n)), "dup": [0] * n,
+                    "gaps": list(range(0, 2 * n, 2)), "text": [f"r{i}" for i in range(n)]}[spec["index"]]
     kw = {}
     if origin is not None:
         kw["origin"] = origin
@@ -95,7 +113,7 @@ def tok(v, bool_as_num=False):
         return ["n", fbits(float(v) if (v != 0 or not bool_as_num) else 0.0)]
     if isinstance(v, str):
         return ["s", v]
-    if isinstance(v, (pd.Timestamp, np.datetime64)) or hasattr(v, "isoformat"):
+    if isinstance(v, (pd.Timestamp, np.datetime64, datetime.datetime)):
         t = pd.Timestamp(v)
         if t is pd.NaT:
             return ["m"]
